@@ -1,4 +1,4 @@
-from . import c07, c09, c10, c13, c16, fixedchk, graph, sem, text
+from . import c07, c09, c10, c13, c14, c16, fixedchk, graph, sem, text
 
 CHECKS = {
     "C01": sem.run,
@@ -14,6 +14,7 @@ CHECKS = {
     "C11": graph.c11,
     "C12": fixedchk.c12,
     "C13": c13.run,
+    "C14": c14.run,
     "C15": text.c15,
     "C16": c16.run,
     "C17": fixedchk.c17,
